@@ -160,9 +160,7 @@ def extract_from(F, anchor):
         if not (x[0] == "index" and x[1][0] == "named"):
             raise U("C01.extract", f"index is not read from a constant table: {P.show(x)}", anchor)
         table = x[1][1]
-        idx = x[2]
-        if idx[0] == "cast" and idx[1] == "IntToInt":
-            idx = idx[2]
+        idx = P.unwiden(x[2])
         if idx[0] != "call" or idx[1] not in F.fns:
             raise U("C01.extract", f"table index is not a call of a crate function: {P.show(idx)}", anchor)
         # which arm: the discriminant test of the finder's result
